@@ -23,10 +23,10 @@ theorem source_side_matches_model : Gen.Smat.sideOfRight = sideOfRight := by
   funext r; cases r <;> rfl
 
 /-- The source subtracts exactly 1 from the `searchsorted` result. -/
-theorem source_offset_matches_model : Gen.Smat.offset = 1 := rfl
+theorem source_offset_matches_model : Gen.Smat.offset = 1 := by decide
 
 /-- `from_strings` constructs the digitizer with the default `clip = (True, True)`. -/
-theorem source_clip_matches_model : Gen.Smat.defaultClip = (true, true) := rfl
+theorem source_clip_matches_model : Gen.Smat.defaultClip = (true, true) := by decide
 
 /-- `ALLOWED_SCORES` are exactly the modes of the model. -/
 theorem source_modes_match_model : Gen.Smat.allowedScores = Mode.all.map Mode.name := by decide
@@ -320,9 +320,9 @@ theorem normalised_le_one_alpha_partial (tb : Lookup2d) (htb : Gen.Smat.fcwbAlph
   · rw [hn1, hc]; exact fcwb_alpha_prefix_max.2
 
 /-- The hypothesis on bins in terms of the numbers: it holds for a matched pair whenever
-`0 ≤ dot ≤ 1` and the alpha product does not exceed `α_q²` (i.e. `α_t ≤ α_q`). -/
+`0 ≤ dot ≤ 1` and the alpha product does not exceed `α_q²` (e.g. `0 ≤ α_t ≤ α_q`). -/
 theorem alpha_bins_of_values (d : Digitizer) (m : Match) (a : Rat) (h0 : 0 ≤ m.dot) (h1 : m.dot ≤ 1)
-    (ha0 : 0 ≤ m.alpha) (ha : m.alpha ≤ a * a) :
+    (ha : m.alpha ≤ a * a) :
     digitize d (matchArgs true m).2 ≤ digitize d (.sqrt (a * a)) := by
   simp only [matchArgs, if_true]
   apply digitize_mono_sqrt
@@ -356,15 +356,15 @@ theorem normalised_gt_one_alpha_witness_equal_alpha :
 def exIvs : List Interval := [⟨.fin 0, .fin (3/4), true⟩, ⟨.fin (3/4), .fin (3/2), true⟩, ⟨.fin (3/2), .fin 2, true⟩]
 
 /-- `from_strings` accepts abutting right-closed labels; a value *on* a boundary goes to the lower bin,
-a value beyond the table to the last bin. -/
-example : ∃ d, Digitizer.fromIntervals exIvs = some d ∧ digitize d (.x (.fin (3/4))) = 0 ∧
-    digitize d (.x (.fin 5)) = 2 ∧ digitize d (.sqrt (9/4)) = 1 ∧ binOK exIvs 0 (.fin (3/4)) = true ∧
-    binOK exIvs 1 (.fin (3/4)) = false := by
-  refine ⟨_, rfl, ?_⟩; decide +kernel
+a value beyond the table to the last bin, `sqrt(9/4)` where `3/2` goes. -/
+example : (Digitizer.fromIntervals exIvs).map (fun d =>
+      (digitize d (.x (.fin (3/4))), digitize d (.x (.fin 5)), digitize d (.sqrt (9/4)), digitize d (.x (.fin (3/2)))))
+    = some (0, 2, 1, 1) ∧ binOK exIvs 0 (.fin (3/4)) = true ∧ binOK exIvs 1 (.fin (3/4)) = false := by
+  decide +kernel
 
 /-- left-closed labels: the boundary value goes to the upper bin -/
-example : ∃ d, Digitizer.fromIntervals [⟨.fin 0, .fin 1, false⟩, ⟨.fin 1, .fin 2, false⟩] = some d ∧
-    digitize d (.x (.fin 1)) = 1 := ⟨_, rfl, by decide +kernel⟩
+example : (Digitizer.fromIntervals [⟨.fin 0, .fin 1, false⟩, ⟨.fin 1, .fin 2, false⟩]).map
+    (fun d => digitize d (.x (.fin 1))) = some 1 := by decide +kernel
 
 /-- the hypotheses of `self_score_one` / `allbyall_eq_query_self` are satisfiable with the default table -/
 example : ((witnessLine 0 1).map (·.p)).Nodup ∧ (∀ p ∈ witnessLine 0 1, p.v.dot p.v = 1) ∧
